@@ -48,7 +48,12 @@ def dnegClosureB (L : LogicData) : Bool :=
 def searchSideB (L : LogicData) : Bool :=
   eachWorldNoTickB L && (L.modal || L.frameRules.isEmpty) && dnegClosureB L
 
+/-- side conditions on the regenerated rows: new-constant rules tick their node, each-constant rules do not -/
+def quantTicksB (L : LogicData) : Bool :=
+  L.rules.all fun kr => (!(kr.2.witness == .newConst) || kr.2.ticks) && (!(kr.2.witness == .eachConst) || !kr.2.ticks)
+
 def searchSideBad (L : LogicData) : List String :=
+  (if quantTicksB L then [] else ["quantifier-ticks"]) ++
   (if eachWorldNoTickB L then [] else ["each-world-rule-ticks"]) ++
   (if L.modal || L.frameRules.isEmpty then [] else ["access-rules-in-non-modal-logic"]) ++
   (if dnegClosureB L then [] else ["double-negation-closure"])
